@@ -1,8 +1,8 @@
 #!/bin/bash
 # Runs each packed seeded change against the check(s) of its property (quick tier) and records the outcome.
-OUT=/verif/seeded/detection.txt; : > $OUT
-declare -A EXTRA=( [C02-a]="C26" [C06-b]="C07" [C13-b]="C11 C12" )
-for d in /verif/seeded/C*-*; do
+OUT=${DETECT_OUT:-/verif/seeded/detection.txt}; : > $OUT
+declare -A EXTRA=( [C02-a]="C26" [C06-b]="C07" [C13-b]="C11 C12" [C06-a]="C05" [C19-b]="C05" [C05-b]="C16" [C05-a]="C06" [C16-a]="C05" [C16-b]="C17" [C01-b]="C15" [C09-a]="C24" [C10-b]="C05" [C36-b]="C33" )
+for d in ${SEEDS:-/verif/seeded/C*-*}; do
   n=$(basename $d); p=${n%-*}
   checks="$p ${EXTRA[$n]}"
   for c in $checks; do
